@@ -263,3 +263,53 @@ func treeNilCheck(root any, strict bool) (kind, detail string) {
 	walk(reflect.ValueOf(root), "Program", 0)
 	return
 }
+
+// dumpTree renders a tree with every exported field (token positions, flags, comments included),
+// without pointer addresses: used to compare trees for identity.
+func dumpTree(root any) string {
+	var b strings.Builder
+	var walk func(v reflect.Value, depth int)
+	walk = func(v reflect.Value, depth int) {
+		if depth > 300 {
+			b.WriteString("<deep>")
+			return
+		}
+		switch v.Kind() {
+		case reflect.Interface, reflect.Ptr:
+			if v.IsNil() {
+				b.WriteString("nil")
+				return
+			}
+			walk(v.Elem(), depth+1)
+		case reflect.Slice:
+			b.WriteByte('[')
+			for i := 0; i < v.Len(); i++ {
+				if i > 0 {
+					b.WriteByte(' ')
+				}
+				walk(v.Index(i), depth+1)
+			}
+			b.WriteByte(']')
+		case reflect.Struct:
+			t := v.Type()
+			b.WriteString(t.Name())
+			b.WriteByte('{')
+			for i := 0; i < v.NumField(); i++ {
+				if !t.Field(i).IsExported() {
+					continue
+				}
+				b.WriteString(t.Field(i).Name)
+				b.WriteByte(':')
+				walk(v.Field(i), depth+1)
+				b.WriteByte(' ')
+			}
+			b.WriteByte('}')
+		case reflect.String:
+			fmt.Fprintf(&b, "%q", v.String())
+		default:
+			fmt.Fprintf(&b, "%v", v.Interface())
+		}
+	}
+	walk(reflect.ValueOf(root), 0)
+	return b.String()
+}
